@@ -328,6 +328,8 @@ func c14Distributor(c *Ctx, dist *ssa.Function) {
 								if rv, ok := r.(ssa.Value); ok {
 									walk(rv)
 								}
+							} else if sc := r.Common().StaticCallee(); sc != nil && readOnlySliceFunc(sc) {
+								// read-only standard library search over the list
 							} else {
 								escapes = true
 							}
@@ -364,4 +366,23 @@ func c14Distributor(c *Ctx, dist *ssa.Function) {
 		}
 	}
 	c.Check(closedAll, "C14.N4-distributor", key+" › closes every listener on shutdown", sel.Pos(), "when the event channel is closed every listener channel is closed", "listener channels are not all closed when the event channel closes")
+}
+
+// readOnlySliceFunc: functions of package slices that only read their slice argument.
+func readOnlySliceFunc(fn *ssa.Function) bool {
+	if fn.Pkg == nil || fn.Pkg.Pkg.Path() != "slices" {
+		// instantiations have no package of their own: look at the origin
+		if o := fn.Origin(); o == nil || o.Pkg == nil || o.Pkg.Pkg.Path() != "slices" {
+			return false
+		}
+	}
+	name := fn.Name()
+	if o := fn.Origin(); o != nil {
+		name = o.Name()
+	}
+	switch name {
+	case "Index", "IndexFunc", "Contains", "ContainsFunc", "Equal", "EqualFunc", "Max", "Min", "BinarySearch":
+		return true
+	}
+	return false
 }
